@@ -10,7 +10,7 @@ PROPS_MODULES = ["C03.Props"]
 RUN_MODULE = "C03.Run"
 RUN_FN = "run_case"
 HARNESS_BIN = "c03"
-HARNESS_BINS = ["c03", "c03bb"]
+HARNESS_BINS = ["c03", "c03bb", "c03h2bb"]
 SHRINK_KEEP = ("h1", "h2", "guard")
 RULE = ("cases: (h2) HTTP/2 header lists = the four pseudo-headers mutated (missing, duplicated, after a regular field, "
         "unknown, upper-case, empty, every :path form, bad :scheme/:method bytes) + regular fields from pools with one "
@@ -26,7 +26,7 @@ ASSUMPTIONS = [
     "HPACK decoding is loona-hpack's: the model's input is the decoded header list",
     "kawa's H1 parser is an oracle for the H1 frontend: h1_forwarded_is_what_was_read is conditional on its output being well-formed; that it only emits such output or rejects is checked differentially (strict reader on what it wrote), with open findings",
     "the strict reader in the driver (Rust) is tied to the Coq strict_h1 by the correspondence on every h1/h2 case",
-    "Content-Length vs DATA (h2.rs handle_data_frame) is tied by a source translator only (the function needs a whole connection); the black-box tier is not built",
+    "Content-Length vs DATA (h2.rs handle_data_frame / trailers path) is tied by a source translator and by the HTTP/2 black-box tier: scripted TLS h2 streams (short, long, early END_STREAM, Content-Length with END_STREAM, trailers) whose client outcome is the one data_agree predicts",
 ]
 TRUSTED = ["translator props/c03.py:translate compares is_tchar, the forbidden value/pseudo-value byte classes, the connection-specific names, the te rule, the content-length digit rule and the three Content-Length/DATA comparisons with /repo"]
 
@@ -350,7 +350,208 @@ def bb_cases(rng, tier):
     return out
 
 
+def h2_scenario(rng, cid):
+    """one HTTP/2 stream for the black-box tier: header list + DATA schedule (+ trailers)"""
+    h2c = rng.random() < 0.3
+    clean = rng.random() < 0.45      # only the framing is adversarial
+    method, path, auth, scheme = rng.choice(["POST", "POST", "GET", "PUT"]), ("/h2/a" if h2c else rng.choice(["/", "/a?b"])), "localhost", "https"
+    r = 1.0 if clean else rng.random()
+    if r < 0.08:
+        method = rng.choice(["GE T", "G\x00T", "", "get"])
+    elif r < 0.18:
+        path = rng.choice(["a", "", "/a b", "/a#b", "/\x7f", "/ HTTP/1.1"])
+    elif r < 0.22:
+        auth = rng.choice(["a b", ""])
+    elif r < 0.26:
+        scheme = rng.choice(["ftp", "HTTP", ""])
+    pseudo = [(":method", method), (":scheme", scheme), (":path", path), (":authority", auth)]
+    rng.shuffle(pseudo)
+    r = 1.0 if clean else rng.random()
+    if r < 0.05:
+        pseudo.pop(rng.randrange(len(pseudo)))
+    elif r < 0.10:
+        pseudo.append(rng.choice(pseudo))
+    elif r < 0.13:
+        pseudo.append((rng.choice([":status", ":x"]), "1"))
+    regs = []
+    for _ in range(rng.randint(0, 5)):
+        r = rng.random() * (0.40 if clean else 1.0)
+        if r < 0.40:
+            n, v = rng.choice(NAMES + ["x-forwarded-for", "forwarded", "x-real-ip", "x-request-id", "sozu-id"]), rng.choice(VALUES)
+        elif r < 0.50:
+            n, v = rng.choice(BADNAMES), rng.choice(VALUES)
+        elif r < 0.58:
+            n, v = rng.choice(CONN), rng.choice(VALUES)
+        elif r < 0.66:
+            n, v = "te", rng.choice(["trailers", "Trailers", "gzip", "trailers, gzip", ""])
+        elif r < 0.78:
+            v = rng.choice(VALUES)
+            i = rng.randint(0, len(v))
+            v = v[:i] + rng.choice(BADBYTES + OKBYTES) + v[i:]
+            n = rng.choice(NAMES)
+        elif r < 0.86:
+            n, v = "host", rng.choice(["localhost", "localhost", "localhost:443", "other", "a b"])
+        else:
+            n, v = "cookie", rng.choice(["a=b", "a=b; c=d", "SERVERID=x", ""])
+        regs.append((n, v))
+    if not clean and rng.random() < 0.06 and regs:
+        regs.insert(rng.randint(1, len(regs)), pseudo.pop())
+    # framing
+    kind = rng.choice(["exact", "exact", "short", "long", "early", "cl-es", "nocl", "nocl", "nocl-trl", "cl-trl", "badcl", "dupcl", "es"])
+    d = rng.choice([0, 1, 5, 9])
+    evs, trl, es = [], None, 0
+    if kind == "es":
+        es = 1
+    elif kind == "cl-es":
+        regs.append(("content-length", str(d)))
+        es = 1
+    elif kind in ("exact", "short", "long", "early", "cl-trl", "badcl", "dupcl"):
+        cl = str(d)
+        if kind == "badcl":
+            cl = rng.choice(["+%d" % d, "%d " % d, "0x%d" % d, "", "%d,%d" % (d, d)])
+        regs.insert(rng.randint(0, len(regs)), ("content-length", cl))
+        if kind == "dupcl":
+            regs.append(("content-length", rng.choice([str(d), "0" + str(d), str(d + 1)])))
+        total = {"short": max(0, d - 1), "long": d + 3, "early": d // 2}.get(kind, d)
+        if kind == "short" and d == 0:
+            total = 0
+        parts = []
+        while total > 0:
+            k = rng.randint(1, total)
+            parts.append(k)
+            total -= k
+        if kind == "long" and len(parts) < 2:
+            parts = [d, 3] if d else [3]
+        if kind == "cl-trl":
+            evs = [(0, k) for k in parts] + [(2,)]
+            trl = [(rng.choice(["grpc-status", "x-t", "sozu-id", "x-forwarded-for", "x-request-id"]), "0")]
+        else:
+            parts = parts or [0]
+            evs = [(0, k) for k in parts[:-1]] + [(1, parts[-1])]
+    elif kind == "nocl":
+        parts = [rng.randint(0, 6) for _ in range(rng.randint(1, 3))]
+        evs = [(0, k) for k in parts[:-1]] + [(1, parts[-1])]
+    else:  # nocl-trl
+        evs = [(0, rng.randint(1, 6)) for _ in range(rng.randint(0, 2))] + [(2,)]
+        trl = [(rng.choice(["grpc-status", "x-t", "sozu-id", "x-forwarded-for", "forwarded", "x-real-ip", "Bad", "connection"]), rng.choice(["0", "a\r\nb"]))]
+    hs = pseudo + regs
+    ops = [["hdr", es] + [t for (n, v) in hs for t in (b(n), b(v))]]
+    for e in evs:
+        if e[0] != 2:
+            ops.append(["data", e[1], e[0]])
+    if trl:
+        ops.append(["trl"] + [t for (n, v) in trl for t in (b(n), b(v))])
+    ops.append(["go"])
+    return Case(cid, ops, dict(kind="h2bb", hs=hs, es=es, evs=evs, trl=trl, h2c=h2c, fr=kind))
+
+
+def h2_predictions(scns, work):
+    """client outcome predicted by the extracted model: accept_h2 (+ trailer validity) then the ledger"""
+    ops = []
+    for c in scns:
+        t = c.tags
+        ops.append(["h2", t["es"]] + [x for (n, v) in t["hs"] for x in (b(n), b(v))])
+        if t["trl"]:
+            # a trailer block is validated like a header list without pseudo-headers: reuse accept_h2 on
+            # the four valid pseudo-headers + the trailer fields (pseudo / invalid field => refused)
+            ops.append(["h2", 1, b":method", b"GET", b":scheme", b"https", b":path", b"/", b":authority", b"x"]
+                       + [x for (n, v) in t["trl"] for x in (b(n), b(v))])
+    text = vlib.model_observations(Case("p", ops), RUN_MODULE, RUN_FN, os.path.join(work, "h2pred"))
+    mobs = [l.split()[2:] for l in text.splitlines() if l.startswith("mobs")]
+    if len(mobs) != len(ops):
+        raise RuntimeError("model printed %d observations for %d ops" % (len(mobs), len(ops)))
+    preds, i = [], 0
+    for c in scns:
+        t = c.tags
+        head = mobs[i]
+        i += 1
+        trl_ok = True
+        if t["trl"]:
+            trl_ok = mobs[i][0] == "accept" and not any(n.startswith(":") for (n, _) in t["trl"])
+            i += 1
+        if head[0] != "accept":
+            preds.append(("refused", None, True))
+            continue
+        raw = bytes.fromhex(head[1][1:])
+        m = re.search(rb"(?im)^content-length: *([0-9]+)\r$", raw)
+        injected = re.search(rb"(?m)^Content-Length: 0\r$", raw) is not None
+        declared = None if (m is None or (injected and t["es"])) else int(m.group(1))
+        if t["es"]:
+            preds.append(("answered", 0, True))
+            continue
+        # the ledger (same function the theorem cl_data_agree is about)
+        lops = ["ledger", 1 if declared is not None else 0, declared or 0]
+        for e in t["evs"]:
+            lops += [2] if e[0] == 2 else [e[0], e[1]]
+        lt = vlib.model_observations(Case("l", [lops]), RUN_MODULE, RUN_FN, os.path.join(work, "h2pred"))
+        lo = [l.split()[2:] for l in lt.splitlines() if l.startswith("mobs")][0]
+        if lo[0] == "complete" and trl_ok:
+            # a Content-Length framed message cannot carry trailers toward HTTP/1.1: they are dropped, still answered
+            preds.append(("answered", int(lo[1]), True))
+        else:
+            # after the whole declared body was delivered the backend may already have answered
+            got = 0
+            strict = True
+            for e in t["evs"]:
+                if e[0] != 2:
+                    got += e[1]
+                    if declared is not None and got - e[1] <= declared <= got and got > declared:
+                        strict = strict and (got - e[1] < declared)
+            preds.append(("refused", None, strict and not (declared is not None and sum(e[1] for e in t["evs"] if e[0] != 2) > declared and any(
+                sum(x[1] for x in t["evs"][:j + 1] if x[0] != 2) == declared for j in range(len(t["evs"]))))))
+    return preds
+
+
 def extra_stage(tier, rng, work):
+    res = extra_stage_h1(tier, rng, work)
+    n = {"quick": 90, "thorough": 1200}.get(tier, 90)
+    scns = [h2_scenario(rng, "z%d" % i) for i in range(n)]
+    # witness of 3321ba0 (corpus/C03/bb/h2bb_cl_trailers.case): Content-Length framing + trailers
+    whs = [(":scheme", "https"), (":path", "/"), (":authority", "localhost"), (":method", "POST"), ("content-length", "5"), ("x-a", "1.2.3.4")]
+    scns.append(Case("zw1", [["hdr", 0] + [t for (k, v) in whs for t in (b(k), b(v))], ["data", 1, 0], ["data", 3, 0], ["data", 1, 0],
+                             ["trl", b"x-t", b"0"], ["go"]],
+                     dict(kind="h2bb", hs=whs, es=0, evs=[(0, 1), (0, 3), (0, 1), (2,)], trl=[("x-t", "0")], h2c=False, fr="cl-trl")))
+    try:
+        preds = h2_predictions(scns, work)
+    except Exception as ex:
+        res["failures"].append("black-box h2: model predictions unavailable: %r" % (ex,))
+        return res
+    outs, problems = vlib.run_harness("c03h2bb", scns, os.path.join(work, "h2bb"), "release", timeout=300, shards=6)
+    res["failures"] += problems
+    answered = refused = 0
+    for c, (kind, body, strict) in zip(scns, preds):
+        o = outs.get(c.id)
+        if o is None:
+            res["failures"].append("black-box h2: no result for case %s" % c.id)
+            continue
+        if any(nt.startswith("invalid-case") for nt in o["notes"]):
+            res["failures"].append("black-box h2: the worker never answered the probe")
+            break
+        for (vc, vt) in o["viol"]:
+            res["viols"].append((c, vc, vt))
+        ob = [x for x in o["obs"] if x and x[0] == "client"]
+        if not ob:
+            continue
+        ob = ob[0]
+        got_kind, code, seen, blen, h2seen, h2data = ob[1], ob[2], ob[4], ob[5], ob[7], ob[8]
+        if got_kind == "answered":
+            answered += 1
+        else:
+            refused += 1
+        if kind == "answered":
+            if got_kind != "answered":
+                res["viols"].append((c, "h2bb-outcome", "the model accepts this stream (framing %s) but the client got %s %s" % (c.tags["fr"], got_kind, code)))
+            else:
+                nseen, nbody = (h2seen, h2data) if c.tags["h2c"] else (seen, blen)
+                if nseen != 1 or nbody != body:
+                    res["viols"].append((c, "h2bb-boundary", "sozu understood one request with a %d byte body, the backend read %d request(s), body %d" % (body, nseen, nbody)))
+        elif strict and got_kind == "answered":
+            res["viols"].append((c, "h2bb-outcome", "the model refuses this stream (framing %s) but the client got 200" % c.tags["fr"]))
+    res["coverage"].update(blackbox_h2_streams=len(scns), blackbox_h2_answered=answered, blackbox_h2_refused=refused)
+    return res
+
+
+def extra_stage_h1(tier, rng, work):
     cases = bb_cases(rng, tier)
     outs, problems = vlib.run_harness("c03bb", cases, os.path.join(work, "bb"), "release", timeout=240, shards=6)
     viols, seen, answered = [], 0, 0
@@ -402,7 +603,8 @@ LEVEL_TEXT = ("Machine-checked proof (Coq 8.16): for EVERY HTTP/2 header list ac
               "worker, recording backend with a strict reader, smuggling grammar at several segmentations).")
 LEVEL_NOTE = ("H2->H1 full on the model; H1->H1: names/framing fields are sozu's own checks (theorem), the value alphabet and "
               "chunk framing are kawa's (oracle, checked differentially in-process and black-box). Six defects found and fixed "
-              "in /repo (69cd28f e4218a3 dfea9cc 39e8c05 8be8458 8e756bb). The Content-Length/DATA ledger of h2.rs is tied "
-              "by a source translator only; the black-box tier drives the HTTP/1 frontend only (no TLS/H2 client).")
+              "in /repo (69cd28f e4218a3 dfea9cc 39e8c05 8be8458 8e756bb 67251ca 3321ba0). Black-box tiers: HTTP/1 frontend "
+              "(smuggling grammar) and HTTP/2 frontend over TLS (header-list mutations + DATA/Content-Length schedules, "
+              "HTTP/1.1 and h2c recording backends), client outcome compared with accept_h2 + data_agree.")
 TECHNIQUE = "Rocq/Coq proof over an executable Gallina model + differential correspondence (extracted OCaml vs real crate)"
 CLAIMED = True
